@@ -38,18 +38,19 @@ def emit(report, module, name, consts, simulate=None, depth=None, seed=None, tim
     table = {}
 
     def on_case(o):
-        table[prefix_key(o["hist"])] = o
+        # observations are kept as compact JSON text (parsed on demand): several times less memory than nested dicts
+        table[prefix_key(o["hist"])] = json.dumps(o["obs"], separators=(",", ":"))
     w, cfg = tlc.make_mc(module, c, invariants=["Emit"] + list(extra_invariants))
     res = tlc.run_tlc(module, cfg, workers=workers, wrapper=w, on_case=on_case, simulate=simulate, depth=depth, seed=seed,
                       timeout=timeout, tag=name)
     tlc.require_clean(res, name)
     report.tlc(res, name + (" (simulation)" if simulate else " (emission of all behaviours)"))
     prefixes = set()
-    for o in table.values():
-        h = o["hist"]
+    for k in table:
+        h = json.loads(k)
         if h:
             prefixes.add(prefix_key(h[:-1]))
-    maximal = [o["hist"] for k, o in table.items() if k not in prefixes]
+    maximal = [json.loads(k) for k in table if k not in prefixes]
     print("[emit %s] %d behaviours (%d observations), TLC %.1fs" % (name, len(maximal), len(table), res.wall), file=sys.stderr)
     return maximal, table, c
 
@@ -72,7 +73,7 @@ def _worker(args):
                 if _G.get("allow_missing"):
                     return None     # this variant of the specification has no such behaviour: the comparison stops here
                 raise core.Machinery("no observation emitted for a prefix (emission incomplete)")
-            return o["obs"]
+            return json.loads(o)
         out.append((idx, rp.run(hist, expected, consts)))
     return out
 
